@@ -12,9 +12,11 @@ import (
 	"fmt"
 	"math"
 	"os"
+	"runtime/debug"
 	"sort"
 	"strconv"
 	"strings"
+	"sync/atomic"
 	"testing"
 	"time"
 
@@ -67,7 +69,59 @@ func (a *c44App) Rollback() error { return nil }
 type c44Queryable struct{ s *c44Sys }
 
 func (q c44Queryable) Querier(mint, maxt int64) (storage.Querier, error) {
-	return q.s.store.Querier(mint, maxt)
+	return q.s.store.st.Querier(mint, maxt)
+}
+
+// Real test storages are expensive to open, so a small pool of them is shared by consecutive
+// system instances. Every instance uses its own alert name, hence its series are disjoint from
+// those of all other instances that used the same storage; a storage is retired after
+// c44StoreUses instances.
+type c44Store struct {
+	st   *teststorage.TestStorage
+	uses int
+}
+
+const c44StoreUses = 4000
+
+var (
+	c44Pool    = make(chan *c44Store, 64)
+	c44NameSeq atomic.Int64
+)
+
+func c44Acquire() *c44Store {
+	select {
+	case st := <-c44Pool:
+		return st
+	default:
+	}
+	st, err := teststorage.NewWithError()
+	if err != nil {
+		panic(err)
+	}
+	return &c44Store{st: st}
+}
+
+func c44Release(st *c44Store) {
+	st.uses++
+	if st.uses < c44StoreUses {
+		select {
+		case c44Pool <- st:
+			return
+		default:
+		}
+	}
+	st.st.Close()
+}
+
+func c44DrainPool() {
+	for {
+		select {
+		case st := <-c44Pool:
+			st.st.Close()
+		default:
+			return
+		}
+	}
 }
 
 // ---------------------------------------------------------------------------------------------
@@ -83,7 +137,7 @@ type c44Cfg struct {
 	For, Kff int64
 	// ModelFor/ModelKff differ from For/Kff only in the self-test.
 	ModelFor, ModelKff int64
-	Ops                string // "full" or "norestart"
+	Ops                string // "base": evaluations + restart/restore; "hold": evaluations + hold change; "full": all
 }
 
 type c44Sys struct {
@@ -95,7 +149,9 @@ type c44Sys struct {
 	g     *Group
 	rule  *AlertingRule
 	rec   *c44Rec
-	store *teststorage.TestStorage
+	store   *c44Store // held from the first restore until Close
+	flushed int       // number of committed batches already copied into store
+	alert   string    // unique alert name of this instance
 	// script for the next evaluation
 	present  map[string]bool
 	notified []string
@@ -106,7 +162,7 @@ type c44Sys struct {
 func c44Time(s int64) time.Time { return time.Unix(c44T0+s, 0).UTC() }
 
 func c44NewSys(r *vx.Run, name string, cfg c44Cfg) *c44Sys {
-	s := &c44Sys{r: r, cfg: cfg, name: name, rec: &c44Rec{}}
+	s := &c44Sys{r: r, cfg: cfg, name: name, rec: &c44Rec{}, alert: fmt.Sprintf("al%d", c44NameSeq.Add(1))}
 	s.m = c44NewModel(cfg.ModelFor, cfg.ModelKff)
 	s.opts = &ManagerOptions{
 		QueryFunc: func(_ context.Context, _ string, ts time.Time) (promql.Vector, error) {
@@ -140,7 +196,7 @@ func c44NewSys(r *vx.Run, name string, cfg c44Cfg) *c44Sys {
 }
 
 func (s *c44Sys) newRule(forD int64, restored bool) *AlertingRule {
-	return NewAlertingRule("al", c44Expr, time.Duration(forD)*time.Second, time.Duration(s.cfg.Kff)*time.Second,
+	return NewAlertingRule(s.alert, c44Expr, time.Duration(forD)*time.Second, time.Duration(s.cfg.Kff)*time.Second,
 		labels.EmptyLabels(), labels.EmptyLabels(), labels.EmptyLabels(), "", restored, promslog.NewNopLogger())
 }
 
@@ -161,7 +217,7 @@ func c44DescribeNotified(a *Alert) string {
 }
 
 var c44Sets = []string{"-", "A", "B", "AB"}
-var c44Dts = []int64{1, c44D - 1, c44D, c44D + 1, c44Ret - 4, c44Ret}
+var c44Dts = []int64{1, c44D - 1, c44D, c44D + 1, c44Ret}
 var c44Holds = []int64{0, c44D, 2 * c44D}
 
 func (s *c44Sys) Ops() []string {
@@ -181,11 +237,11 @@ func (s *c44Sys) Ops() []string {
 		}
 		return ops
 	}
-	if s.cfg.Ops != "norestart" {
+	if s.cfg.Ops != "hold" {
 		ops = append(ops, "restart")
 	}
 	for _, h := range c44Holds {
-		if h != s.m.For {
+		if h != s.m.For && s.cfg.Ops != "base" {
 			ops = append(ops, fmt.Sprintf("hold/%d", h))
 		}
 	}
@@ -235,7 +291,7 @@ func (s *c44Sys) apply(op string, check bool) *vx.Fail {
 		var got []string
 		for _, b := range s.rec.batches[nb:] {
 			for _, sm := range b {
-				d, err := c44DescribeSample(sm, now)
+				d, err := c44DescribeSample(sm, now, s.alert)
 				if err != "" {
 					return vx.Failf("alerts-series-malformed", "evaluation at %d wrote %s: %s (history %v)", now, d, err, s.hist)
 				}
@@ -269,8 +325,6 @@ func (s *c44Sys) apply(op string, check bool) *vx.Fail {
 			return f
 		}
 		s.g.RestoreForState(c44Time(s.m.Now))
-		s.store.Close()
-		s.store = nil
 		s.count(check, s.m.restore(s.m.Now))
 		if s.g.shouldRestore || !s.rule.Restored() {
 			return vx.Failf("restore-flag-not-set", "after RestoreForState: group.shouldRestore=%v rule.Restored=%v (history %v)", s.g.shouldRestore, s.rule.Restored(), s.hist)
@@ -295,7 +349,7 @@ func (s *c44Sys) apply(op string, check bool) *vx.Fail {
 }
 
 // c44DescribeSample renders an appended sample canonically and validates its shape.
-func c44DescribeSample(sm c44Sample, now int64) (string, string) {
+func c44DescribeSample(sm c44Sample, now int64, alert string) (string, string) {
 	name := sm.L.Get("__name__")
 	l := sm.L.Get("s")
 	var key string
@@ -320,7 +374,7 @@ func c44DescribeSample(sm c44Sample, now int64) (string, string) {
 	}
 	d := key + "=" + val
 	switch {
-	case sm.L.Get("alertname") != "al" || sm.L.Len() != want || (name != alertMetricName && name != alertForStateMetricName):
+	case sm.L.Get("alertname") != alert || sm.L.Len() != want || (name != alertMetricName && name != alertForStateMetricName):
 		return d, "unexpected label set " + sm.L.String()
 	case sm.T != (c44T0+now)*1000:
 		return d, fmt.Sprintf("timestamp %d, want evaluation time %d", sm.T, (c44T0+now)*1000)
@@ -328,25 +382,25 @@ func c44DescribeSample(sm c44Sample, now int64) (string, string) {
 	return d, ""
 }
 
-// materialise builds a real test storage holding exactly the samples committed so far.
+// materialise copies the samples committed since the last call into the real test storage, so
+// that it holds exactly what the rule evaluations of this instance have written so far.
 func (s *c44Sys) materialise() *vx.Fail {
-	st, err := teststorage.NewWithError()
-	if err != nil {
-		panic(err)
+	if s.store == nil {
+		s.store = c44Acquire()
 	}
-	app := st.Appender(context.Background())
-	for _, b := range s.rec.batches {
+	app := s.store.st.Appender(context.Background())
+	for _, b := range s.rec.batches[s.flushed:] {
 		for _, sm := range b {
 			if _, err := app.Append(0, sm.L, sm.T, sm.V); err != nil {
-				st.Close()
+				app.Rollback()
 				return vx.Failf("alerts-series-not-storable", "sample %s@%d=%v written by rule evaluation is rejected by the storage: %v (history %v)", sm.L, sm.T, sm.V, err, s.hist)
 			}
 		}
 	}
+	s.flushed = len(s.rec.batches)
 	if err := app.Commit(); err != nil {
 		panic(err)
 	}
-	s.store = st
 	return nil
 }
 
@@ -355,7 +409,7 @@ func (s *c44Sys) compareMemory(op string) *vx.Fail {
 	got := map[string]string{}
 	for _, a := range s.rule.currentAlerts() {
 		l := a.Labels.Get("s")
-		if a.Labels.Len() != 2 || a.Labels.Get("alertname") != "al" || (l != "A" && l != "B") {
+		if a.Labels.Len() != 2 || a.Labels.Get("alertname") != s.alert || (l != "A" && l != "B") {
 			return vx.Failf("alert-labels-wrong", "alert with labels %s (history %v)", a.Labels, s.hist)
 		}
 		if _, dup := got[l]; dup {
@@ -401,24 +455,37 @@ func (s *c44Sys) compareMemory(op string) *vx.Fail {
 	return nil
 }
 
-// Key: model state plus the property-relevant implementation state, times relative to now.
-// Nothing of the implementation state read by Eval / sendAlerts / RestoreForState / CopyState is
-// dropped: all Alert fields, the restored flags, the hold duration, seriesInPreviousEval,
-// staleSeries. (The committed-sample log is represented by the model's Stored part, which every
-// transition has checked against the real appends.)
+// Key: model state plus the implementation state, times relative to now. Every field of the
+// implementation state that Eval / sendAlerts / RestoreForState / CopyState read is represented:
+//   - ActiveAt (age capped like the model's, same argument; not represented for inactive alerts,
+//     whose ActiveAt is never read again: a reappearing inactive alert is replaced by a new Alert),
+//   - ResolvedAt (capped like the model's), KeepFiringSince, LastSentAt, ValidUntil, Value, State,
+//   - FiredAt only as zero/non-zero: it is written by Eval and read only by the notifier glue
+//     (rules.SendAlerts), which is not under test here,
+//   - the restored flags, the hold duration, seriesInPreviousEval, staleSeries.
+// The committed-sample log is represented by the model's Stored part, which every transition has
+// checked against the real appends.
 func (s *c44Sys) Key() string {
 	var b strings.Builder
 	b.WriteString(s.m.key())
 	now := c44Time(s.m.Now)
-	age := func(t time.Time) string {
+	age := func(t time.Time, limit int64) string {
 		if t.IsZero() {
 			return "z"
 		}
-		return strconv.FormatInt(int64(now.Sub(t)/time.Second), 10)
+		a := int64(now.Sub(t) / time.Second)
+		if limit >= 0 {
+			a = c44Cap(a, limit)
+		}
+		return strconv.FormatInt(a, 10)
 	}
 	var as []string
 	for _, a := range s.rule.currentAlerts() {
-		as = append(as, fmt.Sprintf("%s:%s,a%s,f%s,r%s,l%s,v%s,k%s,val%g", a.Labels.Get("s"), a.State, age(a.ActiveAt), age(a.FiredAt), age(a.ResolvedAt), age(a.LastSentAt), age(a.ValidUntil), age(a.KeepFiringSince), a.Value))
+		act := "-"
+		if a.State != StateInactive {
+			act = age(a.ActiveAt, c44MaxFor)
+		}
+		as = append(as, fmt.Sprintf("%s:%s,a%s,f%v,r%s,l%s,v%s,k%s,val%g", a.Labels.Get("s"), a.State, act, a.FiredAt.IsZero(), age(a.ResolvedAt, c44Ret+1), age(a.LastSentAt, -1), age(a.ValidUntil, -1), age(a.KeepFiringSince, -1), a.Value))
 	}
 	sort.Strings(as)
 	fmt.Fprintf(&b, " | impl hold=%s restored=%v shouldRestore=%v alerts=%v", s.rule.holdDuration, s.rule.Restored(), s.g.shouldRestore, as)
@@ -435,7 +502,8 @@ func (s *c44Sys) Key() string {
 
 func (s *c44Sys) Close() {
 	if s.store != nil {
-		s.store.Close()
+		c44Release(s.store)
+		s.store = nil
 	}
 }
 
@@ -504,6 +572,8 @@ func TestVerifC44(t *testing.T) {
 		}
 		return
 	}
+	debug.SetGCPercent(400)
+	defer c44DrainPool()
 	c44SelfTest(t, r)
 	type plan struct {
 		name  string
@@ -532,7 +602,7 @@ func TestVerifC44(t *testing.T) {
 		res := r.BFS(p.name, mk(p.name), p.depth)
 		t.Logf("C44 %s depth %d: states=%d transitions=%d depthCompleted=%d", p.name, p.depth, res.States, res.Transitions, res.DepthCompleted)
 	}
-	r.Set("rule", "explicit-state BFS over timelines of one alerting rule in a real Group; operations: evaluation with result set in {-,A,B,AB} (sample values change with the parity of the timestamp) after an interval in {1,for-1,for,for+1,retention-4,retention} s, restart, RestoreForState (after the 1st or 2nd evaluation following a restart) against a real test storage, reload with 'for' changed to one of {0,d,2d}; after every transition in-memory alerts, appended ALERTS/ALERTS_FOR_STATE samples incl. staleness markers and notified alerts are compared with the reference state machine")
+	r.Set("rule", "explicit-state BFS over timelines of one alerting rule in a real Group; operations: evaluation with result set in {-,A,B,AB} (sample values change with the parity of the timestamp) after an interval in {1,d-1,d,d+1,retention} s (d=3s), restart, RestoreForState (after the 1st or 2nd evaluation following a restart) against a real test storage, reload with 'for' changed to one of {0,d,2d}; after every transition in-memory alerts, appended ALERTS/ALERTS_FOR_STATE samples incl. staleness markers and notified alerts are compared with the reference state machine")
 	r.Set("alphabet", map[string]any{"result_sets": c44Sets, "intervals_s": c44Dts, "for_s": c44Holds, "keep_firing_for_s": []int64{0, c44D}, "outage_tolerance_s": c44Tol, "grace_period_s": c44Grace, "resolved_retention_s": c44Ret})
 	r.Set("depth", dFull)
 	r.Assume("keep_firing_for is measured from the first evaluation in which the alert was absent (the moment the condition was observed to have cleared)")
